@@ -1747,6 +1747,54 @@ pub fn run() {
       }
     }
   }
+  // positions are counted in characters also where the text leaves the result open (a start behind the string, a length
+  // running past its end): whatever a string of n ASCII letters gives there, a string of n other characters gives the
+  // same, character by character. Positions and lengths reach past the byte and the UTF-16 lengths of the strings.
+  {
+    let words = ["é", "日本", "🐎", "a🐎b", "żółw", "🐎ab", "ab🐎", "日a本"];
+    let letters: Vec<char> = "klmnopqr".chars().collect();
+    let ps = parse_scope_of(&BTreeSet::new());
+    let sc = Scope::default();
+    for w in words {
+      let cs = chars(w);
+      let image: String = (0..cs.len()).map(|i| letters[i]).collect();
+      let reach = (w.len() + 3) as i64;
+      for p in -reach..=reach {
+        for k in std::iter::once(None).chain((1..=reach).map(Some)) {
+          let call = |x: &str| match k {
+            None => format!("substring(\"{}\", {})", x, p),
+            Some(k) => format!("substring(\"{}\", {}, {})", x, p, k),
+          };
+          cases.fetch_add(2, Ordering::Relaxed);
+          let ev = |text: &str| dmntk_feel_parser::parse_expression(&ps, text, false).map_err(|e| e.to_string()).and_then(|n| dmntk_feel_evaluator::evaluate(&sc, &n).map_err(|e| e.to_string()));
+          let (a, b) = (ev(&call(w)), ev(&call(&image)));
+          compared.fetch_add(1, Ordering::Relaxed);
+          let back = |v: &dmntk_feel::values::Value| match v {
+            dmntk_feel::values::Value::String(x) => Some(x.chars().map(|c| letters.iter().position(|l| *l == c).and_then(|i| cs.get(i).copied()).unwrap_or('?')).collect::<String>()),
+            _ => None,
+          };
+          let same = match (&a, &b) {
+            (Ok(dmntk_feel::values::Value::String(x)), Ok(vb)) => back(vb).as_deref() == Some(x.as_str()),
+            (Ok(dmntk_feel::values::Value::Null(_)), Ok(dmntk_feel::values::Value::Null(_))) => true,
+            _ => false,
+          };
+          if !same {
+            let shown = |r: &Result<dmntk_feel::values::Value, String>| match r {
+              Ok(v) => show_value(v),
+              Err(e) => format!("error {}", e),
+            };
+            run.violation(
+              &format!("value:substring/{}:characters-counted-alike:{}", if k.is_some() { 3 } else { 2 }, if p < 0 { "from-the-end" } else { "from-the-start" }),
+              &format!("{} evaluates to {} while {} evaluates to {}: the same positions in strings of the same number of characters", call(w), shown(&a), call(&image), shown(&b)),
+              json!({"engine":"c08","kind":"alike","text":call(w),"image":call(&image),"word":w,"letters":image}),
+            );
+          } else if matches!(a, Ok(dmntk_feel::values::Value::String(_))) {
+            nontrivial.fetch_add(1, Ordering::Relaxed);
+          }
+        }
+      }
+    }
+  }
   run.sample(json!({"call":"substring(\"a🐎b\", -2, 1)","reference":"\"🐎\""}));
   run.sample(json!({"call":"replace(\"aXbXc\", \"(a)(b)\", \"[$2$1]\")","named":"replace(replacement: p2, input: p0, pattern: p1)"}));
   run.sample(json!({"call":"mode([6, 1, 9, 6, 1])","reference":"[1, 6]"}));
